@@ -1959,6 +1959,42 @@ fn main() {
 	// ---------------- worker process: one chain scenario
 	if let Some((i, _n)) = run.worker_shard() {
 		let t0 = std::time::Instant::now();
+		let n_planned: usize = run.tier.pick(1, 8);
+		if i >= n_planned {
+			// shared compaction × reorg scenario: the first block above the fork point spends sibling pairs
+			// of old outputs, compaction runs `depth` blocks above the fork point, then the fork wins
+			init_thread(false);
+			vcommon::world::init_globals(true);
+			let horizon = grin_core::global::cut_through_horizon() as usize;
+			let k = i - n_planned;
+			let depth = [1usize, horizon, 3, horizon - 1][k % 4];
+			let seed = run.seed ^ ((k as u64 + 1).wrapping_mul(0x9E37_79B9_7F4A_7C15));
+			let dir = sc.sub(&format!("cr{}", k));
+			match catch(|| vcommon::scenarios::compaction_reorg_scenario(seed, depth, &dir)) {
+				Ok(Ok(st)) => {
+					run.count("chain_compaction_reorg_scenarios_completed", 1);
+					run.count("chain_compaction_reorg_state_comparisons", st.state_comparisons);
+					if st.compaction_moved_tail {
+						run.count("chain_compaction_reorg_scenarios_with_effective_compaction", 1);
+					}
+					run.eval(&format!("chain;compaction_reorg;depth={};pairs={}", depth, st.pairs_spent), true);
+				}
+				Ok(Err((clause, what, replay))) => {
+					if clause == "inconclusive" {
+						run.inconclusive(&what);
+					} else {
+						run.violation(&format!("level=chain;scenario=compaction_reorg;depth={};{}", depth, clause), &what, replay);
+					}
+				}
+				Err(p) => run.violation(
+					&format!("level=chain;scenario=compaction_reorg;event=panic@{}", p.location),
+					&p.message,
+					json!({"level": "chain", "scenario": "compaction_reorg", "depth": depth}),
+				),
+			}
+			drop(sc);
+			run.finish_worker();
+		}
 		if let Err(p) = catch(|| chain_scenario(&run, &sc, i as u64)) {
 			run.violation(
 				&format!("level=chain;stage=harness;event=panic@{}", p.location),
@@ -1983,7 +2019,7 @@ fn main() {
 	std::thread::scope(|s| {
 		if n_chain > 0 {
 			s.spawn(|| {
-				run.spawn_workers(n_chain, &[], run.tier.pick(150, 690));
+				run.spawn_workers(n_chain + run.tier.pick(2, 4), &[], run.tier.pick(240, 690));
 			});
 		}
 		for _ in 0..n_threads {
@@ -2066,6 +2102,11 @@ fn main() {
 		run.require("largest MMR (leaves)", st.max_leaves, run.tier.pick(1024, 2048));
 		let n_chain = n_chain as u64;
 		run.require("chain scenarios completed", run.counter("chain_scenarios_completed"), n_chain);
+		run.require(
+			"compaction x reorg scenarios (spender of sibling pairs right above the fork point)",
+			run.counter("chain_compaction_reorg_scenarios_with_effective_compaction"),
+			run.tier.pick(2, 4),
+		);
 		run.require(
 			"chain compactions that changed the MMR files",
 			run.counter("chain_compactions_changed_files"),
